@@ -20,7 +20,7 @@ import (
 
 type externalFn func(fr *frame, args []value) value
 
-var externals map[string]externalFn
+var externals = map[string]externalFn{}
 
 func lookupExternal(fn *ssa.Function, name string) externalFn {
 	if e, ok := externals[name]; ok {
@@ -31,7 +31,7 @@ func lookupExternal(fn *ssa.Function, name string) externalFn {
 
 func init() {
 	nop := func(fr *frame, args []value) value { return nil }
-	externals = map[string]externalFn{
+	for k, v := range map[string]externalFn{
 		// runtime
 		"runtime.GC":            nop,
 		"runtime.Gosched":       nop,
@@ -213,6 +213,8 @@ func init() {
 			return time.Duration(concInt(fr, args[0], "Duration.String")).String()
 		},
 		"(time.Duration).Seconds": extDurationSeconds,
+	} {
+		externals[k] = v
 	}
 }
 
